@@ -1,6 +1,8 @@
 /* Scripted fake formatter for C15. Behaviour is encoded in the basename of argv[0]:
  *     ff-<stdin>-<stdout>-<term>
- *  stdin : close | none | half | all | slow
+ *  stdin : close | none | half | all | slow | stream | shead
+ *          (stream = echo every chunk to stdout as soon as it is read, like `cat`: if nobody drains stdout the child stops
+ *           reading stdin; shead = the same for the first 100 KB, then stop reading, like `head -c`)
  *  stdout: nothing | half | full | fullbad | bad | reformat
  *  term  : e0 e1 e2 e3 e101 e255 kill segv
  * "half" for stdin reads about half of what arrives within the first read burst and then stops reading
@@ -33,6 +35,10 @@ int main(int argc, char **argv) {
         ssize_t k; size_t want = 1 << 20;
         while (len < want && (k = read(0, tmp, sizeof tmp)) > 0) put(tmp, (size_t)k);
         len = len / 2; close(0);
+    } else if (!strcmp(in, "stream") || !strcmp(in, "shead")) {
+        ssize_t k; size_t total = 0, lim = !strcmp(in, "shead") ? 100 * 1024 : (size_t)-1;
+        while (total < lim && (k = read(0, tmp, sizeof tmp)) > 0) { wr(tmp, (size_t)k); total += (size_t)k; }
+        if (total >= lim) close(0);
     } else if (!strcmp(in, "slow")) {
         ssize_t k; while ((k = read(0, tmp, 4096)) > 0) { put(tmp, (size_t)k); usleep(200); }
     } else { ssize_t k; while ((k = read(0, tmp, sizeof tmp)) > 0) put(tmp, (size_t)k); }
